@@ -156,4 +156,33 @@ CHECKS["C07"] = dict(
           "even when compress='bz2' is passed."),
     technique="Coq proof over hand-written state model + translator-generated codec functions + exact vm_compute correspondence + execution",
     design="4/C07")
+CHECKS["C14"] = dict(
+    text=("Theorems (19 obligations): the per-time-point loop (hand model whose statement skeleton is checked against the AST every run) puts at "
+          "position i the group factor times the nearest-neighbour value of the cells sharing i's time stamp, in the original order, for any "
+          "number of cells and time points (induction over the fold with a filled-positions invariant); singleton groups are refused; unique "
+          "times ascending and covering; factor = powf(n_t/N_t) with exponent 1/d or 1/d_i; N_t = average (True), dict entry, j-th entry of "
+          "the ascending unique times (list/array); missing keys / wrong lengths (list, JAX and NumPy arrays) refused; n_obs = average target "
+          "count; the length-scale heuristic uses raw distances; explicit nn_distances untouched. Generated each run: _get_target_cell_count, "
+          "validate_normalize_parameter, compute_average_cell_count, the routine's prologue, the estimator wiring, three structural tables. "
+          "~1100 calls compared exactly (grouping, counts, order) or within a derived bound (factor) with the model and a brute-force oracle."),
+    note=("Trusted: Coq kernel; pylogic(+c14) translator; the loop is hand-written (skeleton table + correspondence); powf and the KD/Ball-tree "
+          "search are Section parameters (tree contract checked against brute force on every recorded call). The top-level composition is "
+          "proved for the raw column form; the normalised case at loop level plus factor lemmas. Four defects fixed in /repo."),
+    technique="Coq proof (fold invariant) over translator-generated Gallina + hand loop model + exact vm_compute correspondence",
+    design="4/C14")
+CHECKS["C18"] = dict(
+    text=("Theorems (10 obligations) about a symbolic state machine of the staged API parametric in tables regenerated each run (prepare order, "
+          "reads of every _compute_X following helpers, writes of each stage, process stages, lazy predictor properties, fit body, guards of "
+          "set_x / prepare_inference / fit_predict over object identities): order_respects_deps (vm_compute over the three tables); the "
+          "canonical-value invariant is preserved by every step and therefore holds after EVERY operation list (induction, no length bound); "
+          "whatever is present after any staged sequence equals the one-shot value; fit(x) sets everything; any preset subset of "
+          "intermediates keeps the invariant; all nine guards refuse a different object with ValueError. Execution: all call sequences up to "
+          "length 3 (DensityEstimator; length 2 + samples for the others) and preset subsets on real estimators, compared exactly in Coq "
+          "(outcome class, which attributes are set, bitwise equality with the one-shot fit)."),
+    note=("Trusted: Coq kernel; translator/table extraction; the interpreter is hand-written once; cached values are symbolic (numerical content "
+          "is covered by the bitwise comparison with the one-shot fit). Quick tier is exhaustive to length 3 only for DensityEstimator; the "
+          "thorough tier uses state-signature pruning to length 5. Stricter-than-required refusal of the original NumPy array after binding is "
+          "not a violation."),
+    technique="Coq proof (invariant over all operation lists) over generated tables + hand interpreter + exact vm_compute correspondence",
+    design="4/C18")
 NOT_YET = {}
